@@ -137,6 +137,7 @@ func init() {
 			g.Extra["maprange_call_graph_functions"] = len(reach)
 			g.Static = append(g.Static, writeBeforeRead(env, g, "C14")...)
 			g.Static = append(g.Static, globalWrites(env, reach, "C14")...)
+			g.Static = append(g.Static, boundedC14Filter(env))
 			g.Unverified = []string{
 				"which lines the selection regexp accepts, the noise-path regexps, the journald JSON unwrapping",
 			}
@@ -260,6 +261,14 @@ func init() {
 			pfReach := frame.ReachableExcept(env.Prog, perFile, nil, extra)
 			g.Static = append(g.Static, globalWrites(env, pfReach, "C02")...)
 			g.Static = append(g.Static, guardedState(env, g, perFile, extra, "C02")...)
+			// "whatever an earlier run left in the build directory": opt resetfirst=<package variable>
+			for _, fc := range funcsWithProp(env, "C02") {
+				if v := fc.Opts["resetfirst"]; v != "" {
+					if fn := env.Prog.Func(fc.Rel, fc.Name); fn != nil {
+						g.Static = append(g.Static, frame.ResetFirst(env.Prog, fn, v))
+					}
+				}
+			}
 			g.Extra["per_file_call_graph_functions"] = len(pfReach)
 			g.Extra["maprange_call_graph_functions"] = len(reach)
 			return g
@@ -324,6 +333,19 @@ func init() {
 			} else {
 				g.OutOfDate = append(g.OutOfDate, "pkg/prebuild/directive:(Stack).Apply")
 			}
+			// "X and non-X stacks in any order", "several directives": what a directive expands to
+			// does not depend on the directives applied before it: no undeclared package state on
+			// the call graph of directive.Run, and every declared variable is stored before it is
+			// read (the declarations are those of the C02 contracts)
+			perFile := rootsOf(env, g, []string{"pkg/prebuild/directive:Run"})
+			extra := map[*ssa.Function][]*ssa.Function{}
+			if rt := env.Prog.Func("pkg/aa", "renderTemplate"); rt != nil {
+				extra[rt] = rootsOf(env, g, []string{"pkg/aa:join", "pkg/aa:cjoin", "pkg/aa:kindOf", "pkg/aa:setindent", "pkg/aa:indent", "pkg/aa:indentDbus"})
+			}
+			pfReach := frame.ReachableExcept(env.Prog, perFile, nil, extra)
+			g.Static = append(g.Static, globalWrites(env, pfReach, "C02")...)
+			g.Static = append(g.Static, guardedState(env, g, perFile, extra, "C02")...)
+			g.Static = append(g.Static, boundedC07Exec(env))
 			g.Unverified = []string{
 				"that no #aa: directive remains after the build (Run scans the original text once; Stack.Apply inserts foreign text)",
 				"the cleaning of a stacked profile body by multi-line regexps; that the host profile's own rules stay as they were",
